@@ -127,6 +127,8 @@ static void drain_all(const char *key) {
 }
 
 /* ---------------------------------------------------------------- process snapshot (C16) */
+static char *shared_name;
+static void on_rename(int sig) { (void) sig; if (shared_name && shared_name[0]) prctl(PR_SET_NAME, shared_name); }
 static pid_t jam_helper;
 static int count_threads(void) { int n = 0; DIR *d = opendir("/proc/self/task"); struct dirent *e; while (d && (e = readdir(d))) if (isdigit((unsigned char) e->d_name[0])) n++; if (d) closedir(d); return n; }
 static void snapshot(const char *key) {
@@ -388,6 +390,13 @@ static size_t run_line(size_t pc, int in_child, int *stop) {
     } else if (!strcmp(c, "nogroups")) { setgroups(0, NULL);
     } else if (!strcmp(c, "chdir")) { unsigned char *a = unhex(tok[1], &n); if (chdir((char *) a)) opf("{\"ev\":\"error\",\"what\":\"chdir: %s\"}\n", strerror(errno)); free(a);
     } else if (!strcmp(c, "umask")) { umask((mode_t) strtol(tok[1], NULL, 8));
+    } else if (!strcmp(c, "renameparent")) {                       /* the parent process (another xdrv level) changes its name while we keep running */
+        unsigned char *a = unhex(tok[1], &n); snprintf(shared_name, 32, "%s", (char *) a); kill(getppid(), SIGUSR2);
+        char cp[64], cur_[64]; snprintf(cp, sizeof cp, "/proc/%d/comm", (int) getppid());
+        for (int i = 0; i < 200; i++) { int f = open(cp, O_RDONLY); ssize_t r = f >= 0 ? read(f, cur_, sizeof cur_ - 1) : 0; if (f >= 0) close(f); if (r < 0) r = 0; cur_[r] = 0; if (r && cur_[r - 1] == '\n') cur_[r - 1] = 0;
+            if (!strncmp(cur_, (char *) a, 15)) break;
+            struct timespec nap = { 0, 1000000 }; nanosleep(&nap, NULL); }
+        free(a);
     } else if (!strcmp(c, "name")) { unsigned char *a = unhex(tok[1], &n); prctl(PR_SET_NAME, a); free(a);
     } else if (!strcmp(c, "snapnow")) { opf("{\"ev\":\"snapnow\",\"label\":\"%s\",", ntok > 1 ? tok[1] : ""); snapshot("snap"); opf("}\n"); oflush();
     } else if (!strcmp(c, "sigblock")) { sigset_t s; sigemptyset(&s); sigaddset(&s, atoi(tok[1])); sigprocmask(SIG_BLOCK, &s, NULL);
@@ -507,6 +516,8 @@ int main(int argc, char **argv) {
     if (argc < 3) { fprintf(stderr, "usage: xdrv script out\n"); return 2; }
     prctl(PR_SET_PDEATHSIG, SIGKILL);        /* a harness that gives up on us (timeout) must not leave a spinning call behind */
     sinks = mmap(NULL, 16 * sizeof *sinks, PROT_READ | PROT_WRITE, MAP_SHARED | MAP_ANONYMOUS, -1, 0);
+    shared_name = mmap(NULL, 64, PROT_READ | PROT_WRITE, MAP_SHARED | MAP_ANONYMOUS, -1, 0);
+    { struct sigaction sa; memset(&sa, 0, sizeof sa); sa.sa_handler = on_rename; sa.sa_flags = SA_RESTART; sigaction(SIGUSR2, &sa, NULL); }
     rc = dlsym(RTLD_DEFAULT, "rec_ctl");
     if (!rc) { fprintf(stderr, "xdrv: librec.so is not preloaded\n"); return 2; }
     ini_path = getenv("XDRV_INI");
